@@ -209,6 +209,8 @@ def corr_run(ctx, name, vh_args, component_desc, nontrivial=lambda c: True, spec
     if len(cases) != len(lines):
         raise RuntimeError("%s: %d cases but %d lines" % (name, len(cases), len(lines)))
     verdicts = run_modelrun(lines)
+    if ctx.tier == "thorough":
+        coq_reeval(ctx, name, lines, verdicts)
     specv = None
     if spec_component:
         specv = run_modelrun([spec_component + " " + l.split(" ", 1)[1] for l in lines])
@@ -275,6 +277,63 @@ def corr_run(ctx, name, vh_args, component_desc, nontrivial=lambda c: True, spec
                                       "other_mismatches": rest[1:20]}, found_input=found)
     ctx.notes.append("%s: %d cases, %d model/impl differences, %d spec failures" % (name, len(lines), len(mism), len(specbad)))
     return {"cases": len(lines), "mismatches": mism, "specbad": specbad}
+
+
+COQ_CHECKERS = {"PC": ("Corr.PrecompileCorr", "pc_check_items"), "TH": ("Corr.TracerCorr", "th_check_items"), "JO": ("Corr.JournalCorr", "jo_check_items"),
+                "EX": ("Corr.ExecCorr", "ex_check_items"), "MC": ("Corr.MemCorr", "mc_check_items"), "TR": ("Corr.CallTracerCorr", "tr_check_items")}
+
+
+def items_to_coq(toks):
+    """case-line tokens -> Coq term of type list item"""
+    out, stack = [], [[]]
+    for t in toks:
+        if t == "[":
+            stack.append([])
+        elif t == "]":
+            inner = stack.pop()
+            stack[-1].append("IL [" + "; ".join(inner) + "]")
+        elif t.startswith("n:"):
+            stack[-1].append("IN 0x%s" % (t[2:] or "0"))
+        elif t.startswith("b:"):
+            h = t[2:]
+            stack[-1].append("IB [" + "; ".join("0x" + h[i:i + 2] for i in range(0, len(h), 2)) + "]")
+        else:
+            raise ValueError("bad token " + t)
+    return "[" + "; ".join(stack[0]) + "]"
+
+
+def coq_reeval(ctx, name, lines, verdicts, sample=24, max_len=6000):
+    """thorough tier: evaluate a sample of the very same case lines INSIDE Coq (vm_compute on the Corr checker) and compare with
+    what the extracted OCaml program answered — guards extraction, the OCaml compiler and Extract/driver.ml."""
+    idx = [i for i, l in enumerate(lines) if len(l) <= max_len and l.split(" ", 1)[0] in COQ_CHECKERS]
+    idx = sorted(idx, key=lambda i: -len(lines[i]))[:sample // 2] + idx[:sample // 2]
+    idx = sorted(set(idx))
+    if not idx:
+        return
+    d = os.path.join(WORK, "reeval")
+    os.makedirs(d, exist_ok=True)
+    comp = lines[idx[0]].split(" ", 1)[0]
+    mod, fn = COQ_CHECKERS[comp]
+    src = ["From Verif Require Import Base.Bytes Corr.Items %s." % mod, "Open Scope N_scope."]
+    for k, i in enumerate(idx):
+        src.append("Definition c%d : list item := %s." % (k, items_to_coq(lines[i].split()[1:])))
+    src.append("Definition verdicts := Eval vm_compute in [%s]." % "; ".join("%s c%d" % (fn, k) for k in range(len(idx))))
+    src.append("Print verdicts.")
+    path = os.path.join(d, "Reeval_%s.v" % name)
+    open(path, "w").write("\n".join(src) + "\n")
+    t0 = time.time()
+    rc, out = sh(["coqc", "-Q", COQ, "Verif", path], cwd=d, timeout=1800)
+    if rc != 0:
+        ctx.notes.append("%s: in-Coq re-evaluation could not be compiled: %s" % (name, out[-300:]))
+        ctx.violation(name + "_reeval", {"kind": "in-Coq re-evaluation of sampled cases failed to compile", "output_tail": out[-2000:]}, found_input=False)
+        return
+    got = re.findall(r"Some true|Some false|None", out[out.find("verdicts ="):])
+    want = {"1": "Some true", "0": "Some false", "E": "None"}
+    diff = [idx[k] for k in range(min(len(got), len(idx))) if want.get(verdicts[idx[k]]) != got[k]]
+    ctx.notes.append("%s: %d sampled case lines re-evaluated inside Coq with vm_compute in %.0f s: %d disagree with the extracted program" % (name, len(idx), time.time() - t0, len(diff)))
+    if diff or len(got) != len(idx):
+        ctx.violation(name + "_reeval", {"kind": "the extracted OCaml checker and vm_compute inside Coq disagree on a case line (extraction / driver problem)",
+                                        "run": name, "lines": diff[:5], "coq_answers": got[:40]}, found_input=False)
 
 
 def ref_run(ctx, name, vh_args, desc, nontrivial=lambda c: True, max_samples=3, report_max=3, oracle_prefix=None):
